@@ -143,6 +143,21 @@ CLAIMED["C16"] = dict(
     technique="Lean 4 proof on the insertion model + differential correspondence + formatting oracle",
     design="§5 C16")
 
+CLAIMED["C12"] = dict(
+    text=("Lean theorems (every pair of texts / every raw diff list): C12_text_roundtrip_partial (the computed script, "
+          "applied one edit at a time from the right as the engine does, turns the first text into the second), "
+          "C12_reverse_application (right-to-left one-at-a-time == simultaneous replacement; same-offset insertions keep "
+          "their order), C12_order (the engine model processes a computed script in that order), C12_guard_silent (the "
+          "overlap guard never skips a computed edit), C12_accounting. " + ENGINE_TIE + "The diff model (separator "
+          "splitting, loop, anchors) and the engine model are run end to end by the driver on the diff list recorded "
+          "from diff-match-patch and compared with the real pipeline (edits, counts, saved package, accepted text). "
+          "Oracle: extracted accepted text == rewritten text (emphasis markers aside), all edits applied; library path "
+          "and CLI text-file path. Document-level step is correspondence + oracle (partial). Two open findings "
+          "(F-diff-cell-edge, F-diff-crosses-paragraph)."),
+    note=NOTE_COMMON + "diff-match-patch is a parameter of the model (its src/dst contract is monitored per case).",
+    technique="Lean 4 proof of the text-level round trip and of the engine's processing order + end-to-end differential correspondence + round-trip oracle",
+    design="§5 C12")
+
 PENDING = {
 }
 
